@@ -326,11 +326,29 @@ func (a *anchors) isRelease(n *core.Node) bool {
 }
 
 func (a *anchors) isSlotSend(n *core.Node) bool {
-	s, ok := n.Instr.(*ssa.Send)
-	return ok && a.isFieldLoad(s.Chan, a.slotField)
+	if s, ok := n.Instr.(*ssa.Send); ok {
+		return a.isFieldLoad(s.Chan, a.slotField)
+	}
+	// a send arm of a select (a non-blocking "try to take a slot")
+	if sel, ok := n.Instr.(*ssa.Select); ok {
+		for _, st := range sel.States {
+			if st.Dir == types.SendOnly && a.isFieldLoad(st.Chan, a.slotField) {
+				return true
+			}
+		}
+	}
+	return false
 }
 
 func (a *anchors) isSlotRecv(n *core.Node) bool {
+	if sel, ok := n.Instr.(*ssa.Select); ok {
+		for _, st := range sel.States {
+			if st.Dir == types.RecvOnly && a.isFieldLoad(st.Chan, a.slotField) {
+				return true
+			}
+		}
+		return false
+	}
 	u, ok := n.Instr.(*ssa.UnOp)
 	return ok && u.Op == token.ARROW && a.isFieldLoad(u.X, a.slotField)
 }
